@@ -5,7 +5,7 @@ import CV.Model.QuantFloatReplica
 Line protocol for component `quant` (float-derived entropy models).
 
 ```
-quant.fast    <ctor> <f32|f64> <B> <P> <norm|-> <tbl>            -> rejected | ok <s:c:p,…> mono=<b> valid=<b>
+quant.fast    <ctor> <f32|f64> <B> <P> <norm|-> <tbl> | dec q | sweep lo hi stride …   -> rejected | ok <s:c:p,…> mono=<b> valid=<b> | …
 quant.perfect <f32|f64> <B> <P> <tbl> <weights>                  -> rejected | ok valid | ok invalid
 quant.lazy    <f32|f64> <B> <P> <norm|-> <tbl> | op | op …       ops: enc s / dec q / table / sweep lo hi stride
 quant.new     <sym> <B> <P> <min> <max>                          -> ok <free> | panic:other
@@ -43,7 +43,53 @@ def parseOptHex (s : String) : Option (Option Nat) :=
 
 /-! ### fast / lazy / perfect -/
 
-def fastLine {F : Type} (o : FOps F) (B P : Nat) (norm : Option Nat) (tbl : List Nat) : String :=
+def runOps {σ : Type} (op : σ → List String → Option (σ × String × Bool)) :
+    σ → List (List String) → List String → List String
+  | _, [], acc => acc.reverse
+  | st, seg :: rest, acc =>
+    match op st seg with
+    | none => ("bad-op" :: acc).reverse
+    | some (st', out, dead) =>
+      if dead then (out :: acc).reverse else runOps op st' rest (out :: acc)
+
+/-- the bin of `q` in an in-order symbol table (specification decoder) -/
+def findBin : List (Nat × Nat × Nat) → Nat → Option (Nat × Nat × Nat)
+  | [], _ => none
+  | (s, c, p) :: rest, q => if c ≤ q ∧ q < c + p then some (s, c, p) else findBin rest q
+
+/-- sweep over increasing quantiles, walking the table once -/
+def fastSweep (hi stride : Nat) : (fuel : Nat) → List (Nat × Nat × Nat) → (q cnt : Nat) →
+    (dg : UInt64) → String
+  | 0, _, _, cnt, dg => toHex cnt ++ " " ++ toHex dg.toNat
+  | _, [], q, cnt, dg => if q > hi then toHex cnt ++ " " ++ toHex dg.toNat else "no-bin"
+  | fuel + 1, (s, c, p) :: rest, q, cnt, dg =>
+    if q > hi then toHex cnt ++ " " ++ toHex dg.toNat
+    else if q < c + p then
+      fastSweep hi stride fuel ((s, c, p) :: rest) (q + stride) (cnt + 1)
+        (digestStep (digestStep (digestStep dg s) c) p)
+    else fastSweep hi stride fuel rest q cnt dg
+
+/-- decoder ops on a `quant.fast` line (`hasDec = false` for the encoder-only model) -/
+def fastOp (P : Nat) (hasDec : Bool) (t : List (Nat × Nat × Nat)) (seg : List String) :
+    Option (String × Bool) :=
+  if !hasDec then none else
+  match seg with
+  | ["dec", q] => do
+      let q ← parseHex q
+      if q ≥ 2 ^ P then none else
+      match findBin t q with
+      | some (s, c, p) => some (toHex s ++ " " ++ toHex c ++ " " ++ toHex p, false)
+      | none => some ("no-bin", true)
+  | ["sweep", lo, hi, stride] => do
+      let lo ← parseHex lo
+      let hi ← parseHex hi
+      let stride ← parseHex stride
+      if stride = 0 ∨ hi ≥ 2 ^ P then none else
+      some (fastSweep hi stride ((hi - lo) / stride + t.length + 3) t lo 0 digestInit, false)
+  | _ => none
+
+def fastLine {F : Type} (o : FOps F) (B P : Nat) (norm : Option Nat) (tbl : List Nat)
+    (hasDec : Bool) (ops : List (List String)) : String :=
   match fastSetup o B P (tbl.map o.ofBits) (norm.map o.ofBits) with
   | none => "rejected"
   | some c =>
@@ -53,8 +99,11 @@ def fastLine {F : Type} (o : FOps F) (B P : Nat) (norm : Option Nat) (tbl : List
       match tableOfCdf B 0 cdf with
       | .error f => faultStr f
       | .ok t =>
-        "ok " ++ showTriples t ++ " mono=" ++ (if c.monoCert o B then "1" else "0") ++
+        let head := "ok " ++ showTriples t ++ " mono=" ++ (if c.monoCert o B then "1" else "0") ++
           " valid=" ++ (if validTable P t then "1" else "0")
+        " | ".intercalate
+          (runOps (fun (u : Unit) seg => (fastOp P hasDec t seg).map fun (out, dead) => (u, out, dead))
+            () ops [head])
 
 def perfectLine {F : Type} (o : FOps F) (toF64 : F → Float) (B P : Nat) (tbl w : List Nat) : String :=
   match perfectPre o toF64 B P (tbl.map o.ofBits) with
@@ -122,15 +171,6 @@ def lazyOp {F : Type} (o : FOps F) (st : LazySt F) (seg : List String) : Option 
       if stride = 0 ∨ hi ≥ 2 ^ st.B then none else
       some (lazySweep o st hi stride ((hi - lo) / stride + 2) lo 0 digestInit, false)
   | _ => none
-
-def runOps {σ : Type} (op : σ → List String → Option (σ × String × Bool)) :
-    σ → List (List String) → List String → List String
-  | _, [], acc => acc.reverse
-  | st, seg :: rest, acc =>
-    match op st seg with
-    | none => ("bad-op" :: acc).reverse
-    | some (st', out, dead) =>
-      if dead then (out :: acc).reverse else runOps op st' rest (out :: acc)
 
 def lazyLine {F : Type} (o : FOps F) (B P : Nat) (norm : Option Nat) (tbl : List Nat)
     (ops : List (List String)) : String :=
@@ -295,11 +335,12 @@ def parseFloatTy (s : String) : Option Bool :=
 
 def handle (segs : List (List String)) : String :=
   match segs with
-  | [["quant.fast", _ctor, f, b, p, norm, tbl]] =>
+  | ["quant.fast", ctor, f, b, p, norm, tbl] :: ops =>
     match parseFloatTy f, parseHex b, parseHex p, parseOptHex norm, parseList tbl with
     | some is32, some B, some P, some norm, some tbl =>
       if P = 0 ∨ P > B then "bad-op"
-      else if is32 then fastLine f32Ops B P norm tbl else fastLine f64Ops B P norm tbl
+      else if is32 then fastLine f32Ops B P norm tbl (ctor != "ncenc") ops
+      else fastLine f64Ops B P norm tbl (ctor != "ncenc") ops
     | _, _, _, _, _ => "bad-op"
   | [["quant.perfect", f, b, p, tbl, w]] =>
     match parseFloatTy f, parseHex b, parseHex p, parseList tbl, parseList w with
